@@ -49,7 +49,8 @@ def r1(ctx):
         lp = ext[0]
         it = strip(lp["iter"])
         e = [x for x in walk(lp["body"]) if x.get("k") == "mcall" and x["name"] == "extend"][0]
-        arg = strip(e["args"][0])
+        from ..hir import let_table, resolve
+        arg = resolve(e["args"][0], let_table(lp["body"]))
         src = arg["recv"] if arg.get("k") == "mcall" and arg["name"] == "clone" else arg
         srch = e4.local_hid(src)
         copy = [v for nm, v in lets.items() if v[0] == srch]
@@ -176,7 +177,9 @@ def r2(ctx):
         if kind in wb_arms:
             arm, lh = wb_arms[kind]
             dep = [x for x in walk(arm["body"]) if x.get("k") == "assign" and mentions_local(x["r"], wi)]
-            rhs = [pretty(strip(x["r"])) for x in walk(arm["body"]) if x.get("k") == "assign"]
+            from ..hir import let_table, cpretty
+            TT_ = let_table(fn["body"])
+            rhs = [cpretty(strip(x["r"]), TT_) for x in walk(arm["body"]) if x.get("k") == "assign"]
             ok = not dep and all(r.startswith(("weight.", "bias.")) for r in rhs)
             ctx.check("R10.2", "uniform-value:" + kind, ok, "written-value:%s:%s" % (kind, ";".join(rhs)[:60]), c.loc(fn, arm["body"]), "every member receives the same combined value (%s)" % "; ".join(rhs))
     # write-back must come after the accumulation
